@@ -8,9 +8,16 @@
    the part texts in order and sees the terminator (C11_parts_of_body); and one level of flattening: if each part text
    parses to a message whose own attachments are known, the attachments of the multipart are the parts in pre-order,
    each followed by its own (C11_flatten_step) - the inductive step of the flattening theorem.
-   NOT proved: the closed form over whole rendered trees (it needs the header round trip of every part composed with
-   this step); it is checked by the correspondence of harness/c11.py against generated trees with ground truth. *)
-From MD Require Import Bytes Generated DecodeDefs DecodeSpec HeaderDefs MimeDefs MimeProofs MimeProofs2.
+   The closed form over whole rendered trees (C11_attachments_of_tree, C11_attachments_of_message): for EVERY
+   well-formed MIME tree of any shape and size - fields and bodies as in the header round trip of C08, the
+   Content-Type of each multipart yielding its boundary, no line of a preamble or rendered part being a delimiter
+   line of the enclosing boundary - the attachments computed from the rendered text are exactly the sub-messages in
+   pre-order, each with its own parsed header table and body, if the nesting fits the depth limit, and an error
+   otherwise.  The correspondence of harness/c11.py checks the same on generated trees with ground truth, and also
+   what lies outside well-formed trees (missing terminator, colliding boundaries, undecodable parts). *)
+From Coq Require Import List Bool NArith String Ascii.
+Import ListNotations.
+From MD Require Import Bytes Generated DecodeDefs DecodeSpec HeaderDefs HeaderSpec MimeDefs MimeProofs MimeProofs2 MimeProofs3.
 
 Theorem C11_body_not_alternative : forall m, is_content_type m s_mp_alt = false -> get_body m = decode_body m.
 Proof. exact get_body_not_alternative. Qed.
@@ -78,3 +85,57 @@ Example C11_example_parts :
   parts_loop 200 [98%N] (ascii [120;10; 45;45;98;10; 65;58;32;49;10;10;111;110;101;10; 45;45;98;10; 45;45;98;98;10; 45;45;98;45;45;10; 101]%nat) None
   = Some ([ascii [65;58;32;49;10;10;111;110;101;10]%nat; ascii [45;45;98;98;10]%nat], true).
 Proof. vm_compute. reflexivity. Qed.
+
+(* ---- the closed form: whole rendered MIME trees ---------------------------------------------------------------------------- *)
+(* a rendered well-formed tree parses back to its header table and body *)
+Theorem C11_part_parses_back : forall t, wf_tree t -> parse_part (text_of t) = Some (msg_of t).
+Proof. exact parse_part_text. Qed.
+Print Assumptions C11_part_parses_back.
+
+Theorem C11_attachments_of_tree : forall d t, wf_tree t ->
+  parseattachments d (msg_of t) = if fits d t then AOk (flatten t) else AErr.
+Proof. exact attachments_of_tree. Qed.
+Print Assumptions C11_attachments_of_tree.
+
+Theorem C11_attachments_of_message : forall t, wf_tree t ->
+  get_attachments (msg_of t) = if fits depth_limit t then AOk (flatten t) else AErr.
+Proof. exact attachments_of_message. Qed.
+Print Assumptions C11_attachments_of_message.
+
+Theorem C11_quiet_decidable : forall b s, quietb b s = true -> quiet b s.
+Proof. exact quietb_sound. Qed.
+Print Assumptions C11_quiet_decidable.
+
+(* non-vacuity: multipart/mixed holding a text part and a multipart/alternative of a plain and a base64 html part
+   (whose body contains a line that merely begins like the outer delimiter); preamble and epilogue present *)
+Definition bs (s : string) : bytes := map (fun a => N.of_nat (nat_of_ascii a)) (list_ascii_of_string s).
+Definition lf : string := String (ascii_of_nat 10) EmptyString.
+Definition fld (k v : string) : field := mkfield (bs k) [32%N] (bs v).
+Definition ex_leaf1 : tree := Leaf [fld "Content-Type" "text/plain"] (bs ("hello" ++ lf)).
+Definition ex_leaf2 : tree :=
+  Leaf [fld "Content-Type" "text/html"; fld "Content-Transfer-Encoding" "base64"] (bs ("PGI+aGk8L2I+" ++ lf ++ "--Bx" ++ lf)).
+Definition ex_inner : tree :=
+  Multi [fld "Content-Type" "multipart/alternative; boundary=""C"""] (bs "C") [] [ex_leaf1; ex_leaf2] (bs ("epilogue" ++ lf)).
+Definition ex_outer : tree :=
+  Multi [fld "Subject" "x"; fld "Content-Type" "multipart/mixed; boundary=""B"""] (bs "B") (bs ("preamble" ++ lf))
+        [ex_leaf1; ex_inner] [].
+
+Example C11_ex_tree_wf : wf_tree ex_outer.
+Proof.
+  cbn [wf_tree ex_outer ex_inner ex_leaf1 ex_leaf2].
+  repeat match goal with
+         | |- _ /\ _ => split
+         | |- True => exact I
+         | |- exists _, _ => eexists; split; vm_compute; reflexivity
+         | |- quiet _ _ => apply quietb_sound; vm_compute; reflexivity
+         | |- not_multipart _ => vm_compute; reflexivity
+         | |- _ = true => vm_compute; reflexivity
+         end.
+Qed.
+
+Example C11_ex_tree :
+  fits 2 ex_outer = false /\ fits 3 ex_outer = true /\ fits depth_limit ex_outer = true /\
+  flatten ex_outer = [msg_of ex_leaf1; msg_of ex_inner; msg_of ex_leaf1; msg_of ex_leaf2] /\
+  get_attachments (msg_of ex_outer) = AOk (flatten ex_outer) /\
+  parseattachments 2 (msg_of ex_outer) = AErr.
+Proof. vm_compute. repeat split; reflexivity. Qed.
